@@ -180,6 +180,45 @@ def rule_vetting(repo, rep):
           'np.isfinite of the solver result')
 
 
+def rule_forms(repo, rep):
+  R = 'R-FORM:sdml-empirical-matrix'
+  rep.rule(R, 'loss_matrix is sum_i y_i v_i v_i^T = diff^T Diag(y) diff and '
+           'the solver input is prior_inv + balance_param * loss_matrix '
+           '(plus sign, linear in the loss matrix)')
+  from ..ratfunc import Rat, LinM, eval_expr
+  f = repo.get_func('sdml._BaseSDML._fit')
+  lm = [v for (n, v) in guards.assignments(f.node, 'loss_matrix')
+        if v is not None]
+  okl = lm and ast.unparse(lm[0]) in (
+      '(diff.T * y).dot(diff)', 'np.dot(diff.T * y, diff)',
+      'diff.T.dot(y[:, None] * diff)', '(diff * y[:, None]).T.dot(diff)',
+      'np.einsum(\'ij,i,ik->jk\', diff, y, diff)')
+  rep.add(R, 'sdml._BaseSDML._fit:loss_matrix', 'derived' if okl else
+          'unknown', site(f), '' if okl else 'loss_matrix = %s is not in the '
+          'table of forms of diff^T Diag(y) diff'
+          % (ast.unparse(lm[0]) if lm else None))
+  df = [v for (n, v) in guards.assignments(f.node, 'diff') if v is not None]
+  okd = df and ast.unparse(df[0]) in ('pairs[:, 0] - pairs[:, 1]',
+                                      'pairs[:, 1] - pairs[:, 0]',
+                                      'pairs[:, 0, :] - pairs[:, 1, :]',
+                                      'pairs[:, 1, :] - pairs[:, 0, :]')
+  rep.add(R, 'sdml._BaseSDML._fit:diff', 'derived' if okd else 'unknown',
+          site(f), '' if okd else 'diff = %s not recognised'
+          % (ast.unparse(df[0]) if df else None))
+  ec = [v for (n, v) in guards.assignments(f.node, 'emp_cov') if v is not None]
+  v = eval_expr(ec[0], {'self.balance_param': 'bp'},
+                {'prior_inv': 'P', 'loss_matrix': 'Lm'}) if ec else None
+  want = LinM.atom('P') + LinM.atom('Lm').scale(Rat.sym('bp'))
+  if v is None:
+    rep.unknown(R, 'sdml._BaseSDML._fit:emp_cov', site(f), 'emp_cov not '
+                'derivable')
+  else:
+    rep.add(R, 'sdml._BaseSDML._fit:emp_cov', 'derived' if v == want else
+            'refuted', site(f), '' if v == want else 'solver input is %r, '
+            'documented %r' % (v, want))
+
+
 def check(repo, rep, tier):
   rule_problem(repo, rep)
+  rule_forms(repo, rep)
   rule_vetting(repo, rep)
